@@ -291,3 +291,51 @@ func VerifC02HostnameBoundaries() {
 		verifrt.Cover("rejected")
 	}
 }
+
+// VerifC02LongPorts: "1.2.3.4:" / "[::1]:" followed by a decimal port that is
+// either 1..7 (thorough: 1..24) arbitrary digits, or a member of the
+// accumulator-boundary family: 0..3 leading zeros, the leading decimal digits
+// of 2^16, 2^31, 2^32, 2^63 or 2^64, and five arbitrary digits in place of the
+// last five (so every value within 10^5 of these powers of two, where a 16-,
+// 32- or 64-bit accumulator wraps).  The real strconv.ParseUint is the
+// reference.
+func VerifC02LongPorts() {
+	var b []byte
+	if verifrt.Bool2() {
+		b = append(b, "1.2.3.4:"...)
+	} else {
+		b = append(b, "[::1]:"...)
+	}
+	n := 0
+	if verifrt.Bool2() {
+		max := 7
+		if verifrt.Thorough() {
+			max = 24
+		}
+		n = 1 + verifrt.Len(max-1)
+	} else {
+		for z := verifrt.Len(3); z > 0; z-- {
+			b = append(b, '0')
+		}
+		// 65536, 2147483648, 4294967296, 9223372036854775808,
+		// 18446744073709551616 without their last five digits
+		b = append(b, [...]string{"", "21474", "42949", "92233720368547", "184467440737095"}[verifrt.Choice(5)]...)
+		n = 5
+	}
+	for i := 0; i < n; i++ {
+		c := verifrt.Byte()
+		verifrt.Assume(c >= '0' && c <= '9')
+		b = append(b, c)
+	}
+	s := string(b)
+	got := IsValidIPPortString(s)
+	want := c02RefAddrPort(s)
+	verifrt.ObserveString("s", s)
+	verifrt.ObserveBool("got", got)
+	verifrt.Assert(got == want, "IsValidIPPortString disagrees with netip.ParseAddrPort on a long decimal port")
+	if got {
+		verifrt.Cover("accepted")
+	} else {
+		verifrt.Cover("rejected")
+	}
+}
